@@ -128,7 +128,7 @@ def task(item):
         e6 = leaf6(e)
         geo_space = sorted(set(ref.nbrs(e6, 1) + ref.nbrs(e6, 3)))
         geo_time = sorted(set(ref.nbrs(e6, 0) + ref.nbrs(e6, 2)))
-        for res in OS.FAMILY:
+        for res in OS.family_for(L):
             for N in POLY_ORDERS:
                 est = ests[N]
                 # ---- space indicator (H^1/2 over the union with each space neighbour)
@@ -336,7 +336,7 @@ def run(ctx):
                    'plus (mesh, element) pairs of the shortcut and symmetry clauses; distinct by construction',
            'per_graph': per, 'neighbour_set_checks': nb,
            'class_count_and_worst_relative_error': {k: [v[0], float('%.3g' % v[1])] for k, v in sorted(classes.items())},
-           'symmetry_element_checks': ns, 'orders': list(POLY_ORDERS), 'residual_family': [r.name for r in OS.FAMILY],
+           'symmetry_element_checks': ns, 'orders': list(POLY_ORDERS), 'residual_family': [r.name for r in OS.FAMILY] + ['cos(k*xh)+t*sin(2k*xh), k=2pi/L (x_hat-dependent, continuous across the seam)'],
            'samples': [{'cfg': items[0][0], 'history': list(items[0][1]), 'residual': 't*x', 'order': 5},
                        {'cfg': items[-1][0], 'history': list(items[-1][1]), 'residual': 'exp(X1)', 'order': 17}],
            'exhaustive': True}
